@@ -253,10 +253,13 @@ func ruleDeadlinePairing(w *World, r *Report, rule string) {
 			}
 			narm++
 			key := dlRecvKey(recv)
-			okey := fmt.Sprintf("arm:%s@%s", c.Common().Method.Name(), ssaFuncKey(fn))
-			if !c.Common().IsInvoke() {
-				okey = fmt.Sprintf("arm:%s@%s", sCallee(c).Name(), ssaFuncKey(fn))
+			mname := "deadline"
+			if c.Common().IsInvoke() {
+				mname = c.Common().Method.Name()
+			} else if f := sCallee(c); f != nil {
+				mname = f.Name()
 			}
+			okey := fmt.Sprintf("arm:%s@%s", mname, ssaFuncKey(fn))
 			bad := ""
 			npaths := 0
 			start, _ := c.(ssa.Instruction)
